@@ -32,6 +32,7 @@ import Frp.Engines.Vmgr
 import Frp.Engines.Svc
 import Frp.Engines.Teardown
 import Frp.Engines.Xport
+import Frp.Engines.CtlReg
 /-! Registry of driver engines (one line per engine). -/
 namespace Frp.Engines
 open Frp.Proto
@@ -69,6 +70,7 @@ def all : List (String × Engine) :=
   , ("xtcp", xtcp)
   , ("vmgr", vmgr)
   , ("svc", svc)
+  , ("ctlreg", ctlreg)
   , ("td", td)
   , ("xport", xport)
   , ("xprace", xport)
